@@ -95,7 +95,7 @@ func TestC07(t *testing.T) {
 // ---- C16 (through the controller) ------------------------------------------------
 
 var c16CtlCfg = SGenCfg{RFs: []int{1, 2, 3}, MinOps: 3, MaxOps: 16, FaultPct: 0, Blocks: 8,
-	W: map[string]int{"write": 34, "read": 14, "ctlresize": 24, "snapshot": 8, "readd": 10, "remove": 6, "addresize": 6}}
+	W: map[string]int{"write": 34, "read": 14, "ctlresize": 24, "snapshot": 8, "readd": 10, "remove": 6, "addresize": 6, "resizerace": 6}}
 
 func TestC16Controller(t *testing.T) {
 	runStackProperty(t, "C16", "TestC16Controller", func(rt *rapid.T) SProgram { return GenSProgram(rt, c16CtlCfg) },
